@@ -40,7 +40,7 @@ def generate():
     mnone = re.search(r"None => (KEYWORDS_\w+)", body)
     if not mnone or set(disp) != set(versions):
         raise Shape("is_keyword: dispatch does not cover the versions")
-    if "for k in keywords { if s.fragment() == k { return true; } } false" not in body:
+    if not re.search(r"for (\w+) in keywords \{ if s\.fragment\(\) == \1 \{ return true; \} \} false", body):
         raise Shape("is_keyword: membership loop")
     # begin_keywords: "spec" => push(Version::X)
     body = fn_body(ut, "begin_keywords")
